@@ -787,7 +787,8 @@ impl RADAU {
                 singular_count = 0;
 
                 // Constrain new step size
-                hnew = hnew.abs().clamp(hmin, hmax) * posneg;
+                // (not `clamp`, which panics when min_step exceeds max_step or the interval: the upper limit wins)
+                hnew = hnew.abs().max(hmin).min(hmax) * posneg;
 
                 // Prevent oscillations due to previous step rejections
                 if reject {
